@@ -346,7 +346,7 @@ func cmpRefRef(prefix string, want, got *refv4.Packet) *obs.Fail {
 
 func genC07() *rapid.Generator[c07Case] {
 	return rapid.Custom(func(t *rapid.T) c07Case {
-		c := c07Case{Base: gen.V4Packet(rapid.SampledFrom([]int{9, 9, 20, 30}).Draw(t, "maxopts"), 1100).Draw(t, "pkt")}
+		c := c07Case{Base: gen.V4Packet(rapid.SampledFrom([]int{9, 9, 20, 30, 40, 80, 200}).Draw(t, "maxopts"), 1100).Draw(t, "pkt")}
 		n := len(c.Base.Opts)
 		np := rapid.IntRange(2, 4).Draw(t, "nprogs")
 		for i := 0; i < np; i++ {
